@@ -205,12 +205,12 @@ std::vector<int> worlds()
 
 std::uint64_t vfh_num_cases(bool thorough)
 {
-    return 1 + (thorough ? 400 : 20) + worlds().size() * 3 * (thorough ? 4 : 2);
+    return 1 + (thorough ? 2000 : 20) + worlds().size() * 3 * (thorough ? 24 : 2);
 }
 
 void vfh_run_case(std::uint64_t idx, Rng& rng)
 {
-    std::uint64_t seeded = ctx().thorough ? 400 : 20;
+    std::uint64_t seeded = ctx().thorough ? 2000 : 20;
     if (idx == 0) { helpers_exhaustive(); return; }
     if (idx <= seeded) { helpers_seeded(rng); return; }
     std::uint64_t j = idx - 1 - seeded;
